@@ -55,6 +55,30 @@ def relation_key(name, grp):
     return "relation:" + name
 
 
+def unbounded_machine(res):
+    """MachineInd: the rule-status cache and the evaluation stack for any number of events; Apalache checks
+    that IndInv (no name twice on the stack, a name in progress has no cached status) is inductive and that
+    a cached status is never changed outside NewRoot (TraceMemo ties the same actions to the hook events)"""
+    d = os.path.join(SPEC, "apalache")
+    out_dir = os.path.join(WORK, "apalache")
+    steps = [("initiation", ["--init=Init", "--inv=IndInv", "--length=0"]),
+             ("consecution", ["--init=IndInit", "--inv=IndInv", "--length=1"]),
+             ("single-assignment", ["--init=IndInit", "--inv=SingleAssignment", "--length=1"])]
+    ok = 0
+    for name, args in steps:
+        rc, out = sh(["timeout", "600", "apalache-mc", "check", "--cinit=ConstInit"] + args + ["--out-dir=" + out_dir, "MachineInd.tla"], cwd=d, timeout=700)
+        if "EXITCODE: OK" in out:
+            ok += 1
+        elif "EXITCODE: ERROR (12)" in out:
+            raise ToolError("MachineInd: invariant not inductive (%s)" % name)
+        else:
+            log(out[-1500:])
+            raise ToolError("apalache-mc failed on MachineInd (%s)" % name)
+    res.cov["unbounded_machine_obligations"] = {"checked": len(steps), "ok": ok, "tool": "apalache-mc 0.58"}
+    import shutil
+    shutil.rmtree(out_dir, ignore_errors=True)
+
+
 def run(tier):
     res = Result("C04", tier, "model_checking")
     res.assumptions = ["orderings that raise an evaluation error are excluded (the property's proviso)",
@@ -68,6 +92,7 @@ def run(tier):
     res.add("states", r["distinct"])
     res.add("transitions", r["states"])
     res.cov["machine_states"] = r["distinct"]
+    unbounded_machine(res)
     # 2. the combination rules are symmetric: all permutations / repetitions (lines <= 3 quick / 4 thorough, alternatives <= 3)
     r = tlc("MC_Cnf", cfg="MC_Cnf_perm3" if tier == "quick" else "MC_Cnf_perm", workers=8, timeout=1800, tag="cnfperm", heap="8g", env={"CTXS": "1,1"})
     if not r["ok"]:
@@ -85,7 +110,8 @@ def run(tier):
     res.cov["rule"] = ("GuardMachine model-checked for 3 rules (all reference graphs, statuses, schedules); PermLaw over all "
                        "CNF shapes <= 4x3; R: random programs with lines/alternatives/rules permuted, clauses repeated, rules "
                        "duplicated under a new name (TraceGroup); hook-event streams of random programs validated against "
-                       "GuardMachine (TraceMemo)")
+                       "GuardMachine (TraceMemo); Apalache: inductive invariant of the cache / stack machine for histories of any length "
+                       "(spec/apalache/MachineInd.tla)")
     return res.finish()
 
 
